@@ -159,6 +159,7 @@ type Gen struct {
 	depth      int
 	trustedUsed map[string]bool
 	sinkRefs    map[string]bool      // identities of byte sinks that exist at entry (io.Writer parameters)
+	bindingParams bool // true while the parameters of the function under verification are being bound
 	clauseBound map[string]bool      // callpre/ghostset/observe clauses that matched at least one call
 	clauseEval  map[string]bool      // callpre clauses that were evaluated (all their names in scope) at some call
 	secReaders  map[string][3]string // *io.SectionReader term -> (ReaderAt identity, offset, length)
@@ -223,9 +224,22 @@ func (g *Gen) arr(st *State, v Val) string {
 	return fmt.Sprintf("(select %s %s)", h, v.Ref)
 }
 
+// allocMark: every object that exists when the function is entered has an identity <= alloc0, every
+// object the function allocates has a larger one (so a fresh object can never be an object that is
+// only discovered later by reading the entry heap).
+func (g *Gen) allocMark() string {
+	n := "|alloc0|"
+	if _, ok := g.decls[n]; !ok {
+		g.decls[n] = "Int"
+		g.declOrder = append(g.declOrder, n)
+	}
+	return n
+}
+
 func (g *Gen) freshRef(st *State) string {
 	r := g.newSym("ref", "Int")
 	g.assume(st, fmt.Sprintf("(> %s 0)", r))
+	g.assume(st, fmt.Sprintf("(> %s %s)", r, g.allocMark()))
 	for _, o := range st.refs {
 		g.assume(st, fmt.Sprintf("(not (= %s %s))", r, o))
 	}
@@ -513,6 +527,9 @@ func (g *Gen) symFor(t types.Type, name string, st *State) Val {
 		o := g.newSym(name+"_off", "Int")
 		g.assume(st, fmt.Sprintf("(and (<= 0 %s) (<= %s %s) (<= 0 %s) (<= %s %s) (>= %s 0) (=> (= %s 0) (= %s 0)))", l, l, maxLen, o, o, maxLen, r, r, l))
 		st.refs = append(st.refs, r)
+		if g.bindingParams {
+			g.assume(st, fmt.Sprintf("(<= %s %s)", r, g.allocMark())) // a parameter's backing array existed at entry
+		}
 		g.noteElemRange(st, r, u.Elem())
 		return Val{Ref: r, Len: l, Off: o, Kind: "slice", Ty: t}
 	case *types.Array:
